@@ -38,6 +38,7 @@ type Cfg struct {
 	MaxBytes int   `json:"maxBytes"`
 	Linger   bool  `json:"linger"`
 	Dead     []int `json:"dead"`
+	Tmo      bool  `json:"tmo"` // the request timeout is short: it fires while a leader sits on a request
 }
 
 // Obs is the observable state the specification records (ClientBatchMC.tla: ObsNow / ObsNext).
@@ -47,6 +48,7 @@ type Obs struct {
 	Res  []AnsRec           `json:"res"`  // result of a batched call
 	Out  [][][]int          `json:"out"`  // items delivered by a list / scan call
 	Sent [][]int            `json:"sent"` // sent[c-1][s-1]: how often the request of call c reached shard s
+	Late [][][]int          `json:"late"` // late[s-1]: write requests the leader still holds whose client-side wait timed out
 }
 
 type Step struct {
